@@ -304,6 +304,9 @@ func idemKey(a, b string, srcHasEmptyStmt bool) (string, string) {
 			}
 			_ = tb
 			if strings.Contains(na[i], "//") || strings.Contains(na[i], "/*") {
+				if t := strings.TrimSpace(na[i]); strings.HasPrefix(t, "//") && i+1 < len(na) && labelLine.MatchString(strings.TrimSpace(na[i+1])) {
+					return "second-pass-differs:comment-before-label", detail
+				}
 				if inImportBlock(na, i) {
 					// after sorting / de-duplicating the specs, their comments are aligned one pass late
 					return "second-pass-differs:import-comment-alignment", detail
@@ -315,6 +318,8 @@ func idemKey(a, b string, srcHasEmptyStmt bool) (string, string) {
 	}
 	return "second-pass-differs:layout", detail
 }
+
+var labelLine = regexp.MustCompile(`^[A-Za-z_][A-Za-z_0-9]*:$`)
 
 func inImportBlock(lines []string, i int) bool {
 	for j := i; j >= 0; j-- {
